@@ -144,7 +144,7 @@ fn pe(e: PositionedError) -> PE {
 // projects
 
 #[derive(Clone, Debug)]
-struct Fault { kind: String, stage: u32, files: Vec<String>, known: Vec<String> }
+struct Fault { kind: String, stage: u32, files: Vec<String>, known: Vec<String>, via: Option<String> }
 
 #[derive(Clone, Debug, Default)]
 struct GenCfg {
@@ -219,7 +219,8 @@ fn base_project(rng: &mut Rng, idx: usize, thorough: bool) -> Built {
     let nf = rng.range(1, 3);
     let mut sets: Vec<BTreeSet<usize>> = vec![BTreeSet::new(); nf];
     sets[0].insert(usize::MAX);
-    for i in 0..schema.types.len() { let k = rng.below(nf); sets[k].insert(i); }
+    // every file gets at least one definition (a file with comments only is not a GraphQL document)
+    for i in 0..schema.types.len() { let k = if i < nf { i } else { rng.below(nf) }; sets[k].insert(i); }
     let names = ["schema/a.graphql", "schema/b.graphql", "schema/c.graphql"];
     let mut schema_files = vec![];
     for (k, set) in sets.iter().enumerate() {
@@ -290,7 +291,7 @@ fn inject(rng: &mut Rng, root: &Path, b: &mut Built, kind: &str, prefix: &mut Ve
     let dj = rng.below(nd);
     let sfile = abs(root, &b.proj.schema_files[sj].0);
     let dfile = abs(root, &format!("ops/q{dj}.graphql"));
-    let mut f = Fault { kind: kind.to_string(), stage: 0, files: vec![], known: vec![] };
+    let mut f = Fault { kind: kind.to_string(), stage: 0, files: vec![], known: vec![], via: None };
     match kind {
         "schema-stray-brace" => {
             let t = &mut b.proj.schema_files[sj].1;
@@ -367,7 +368,7 @@ fn inject(rng: &mut Rng, root: &Path, b: &mut Built, kind: &str, prefix: &mut Ve
             if nd < 2 { return false; }
             let other = (dj + 1) % nd;
             prefix[dj].push(format!("#import Zzz{serial} from \"./q{other}.graphql\""));
-            f.stage = 6; f.files = vec![dfile];
+            f.stage = 6; f.files = vec![dfile]; f.via = Some(abs(root, &format!("ops/q{other}.graphql")));
         }
         "op-wildcard-twice" => {
             if nd < 2 { return false; }
@@ -384,7 +385,9 @@ fn inject(rng: &mut Rng, root: &Path, b: &mut Built, kind: &str, prefix: &mut Ve
         "gen-missing-schema-output" => { b.proj.gen.schema_output = None; b.proj.gen.module_specifier = None; f.stage = 8; }
         "gen-emit-runtime-dts" => { b.proj.gen.schema_output = Some("generated/schema.d.ts".into()); b.proj.gen.emit_runtime = true; f.stage = 8; }
         "gen-scalar-type-missing" => {
-            if b.proj.gen.scalars.is_empty() || b.proj.gen.schema_output.is_none() { return false; }
+            if b.proj.gen.schema_output.is_none() { b.proj.gen.schema_output = Some("generated/schema.d.ts".into()); b.proj.gen.emit_runtime = false; }
+            // make sure there is a custom scalar, and configure no TypeScript type for any
+            if b.proj.gen.scalars.is_empty() { b.proj.schema_files[sj].1.push_str(&format!("scalar Stamp{serial}\n")); }
             b.proj.gen.scalars.clear(); b.proj.gen.server_output = None;
             // the printer's error carries the position of the scalar definition; one of the files declaring a scalar has to be named
             f.files = b.proj.schema_files.iter().filter(|(_, t)| t.lines().any(|l| l.starts_with("scalar "))).map(|(n, _)| abs(root, n)).collect();
@@ -609,6 +612,12 @@ fn main() {
             else { let k = rng.range(1, if thorough { 4 } else { 2 }); for _ in 0..k { kinds.push(*rng.pick(FAULT_KINDS)); } }
         }
         for k in kinds { serial += 1; if inject(&mut rng, &root, &mut b, k, &mut prefix, &mut suffix, serial) { bump(&format!("fault_{k}"), 1); } }
+        // resolving the imports of a file descends into the imported file first: an import fault there is what gets
+        // reported for the importing file too (positioned in the imported file)
+        let stage6: Vec<String> = b.proj.faults.iter().filter(|f| f.stage == 6).flat_map(|f| f.files.first().cloned()).collect();
+        for f in b.proj.faults.iter_mut() {
+            if let Some(v) = &f.via { if stage6.contains(v) && !f.files.contains(v) { f.files.push(v.clone()); } }
+        }
         render_ops(&mut rng, &mut b, &mut prefix, &mut suffix);
         let p = b.proj.clone();
         bump(&format!("projects_with_{}_faults", p.faults.len().min(3)), 1);
@@ -667,12 +676,12 @@ fn main() {
             // command-sequence faults are part of the run, not of the project
             let mut faults = p.faults.clone();
             let mut state_resolved = false;
-            if cmds.is_empty() { faults.push(Fault { kind: "usage-no-command".into(), stage: 0, files: vec![], known: vec![] }); }
+            if cmds.is_empty() { faults.push(Fault { kind: "usage-no-command".into(), stage: 0, files: vec![], known: vec![], via: None }); }
             for c in &cmds {
                 match *c {
-                    "check" => { if state_resolved { faults.push(Fault { kind: "usage-check-after-command".into(), stage: 9, files: vec![], known: vec![] }); } state_resolved = true; }
+                    "check" => { if state_resolved { faults.push(Fault { kind: "usage-check-after-command".into(), stage: 9, files: vec![], known: vec![], via: None }); } state_resolved = true; }
                     "generate" => { state_resolved = true; }
-                    _ => faults.push(Fault { kind: "usage-unknown-command".into(), stage: 9, files: vec![], known: vec![] }),
+                    _ => faults.push(Fault { kind: "usage-unknown-command".into(), stage: 9, files: vec![], known: vec![], via: None }),
                 }
             }
             // generate-stage faults only count when generate runs
@@ -713,7 +722,7 @@ fn main() {
     }
 
     // ---- write the shards (same layout as verif_harness::Cases, plus the project definitions a shard uses)
-    let shard_size = if thorough { 240 } else { 14 };
+    let shard_size = if thorough { 96 } else { 14 };
     fs::create_dir_all(&args.out).unwrap();
     let mut k = 0;
     for chunk in outs.chunks(shard_size) {
